@@ -396,6 +396,64 @@ def paths(block: tuple, env: Optional[dict] = None, limit: int = 4096, fall: S =
     return out
 
 
+def traces(block: tuple, env: Optional[dict] = None, limit: int = 4096, fall: S = ("fall",), keep_sets: bool = False) -> list[tuple[tuple, tuple, S]]:
+    """Like ``paths`` but with what is done along each path: list of (branch literals, effects, outcome), where the
+    effects are the statements other than plain variable assignments, branches and exits, in order, with the variable
+    environment substituted (loops are kept whole as one effect).  The result does not depend on how the branches are
+    arranged (guard clauses, nesting, else arms, early returns).  With ``keep_sets`` the variable assignments stay in
+    the trace as effects and nothing is substituted (for rules where the identity of a local matters)."""
+    out: list[tuple[tuple, tuple, S]] = []
+
+    def sub(x: S, e: dict) -> S:
+        return fold(Sigma(raw_subst=e).apply(x)) if e else fold(x)
+
+    def walk(stmts: tuple, i: int, lits: tuple, e: dict, eff: tuple) -> None:
+        if len(out) > limit:
+            raise RuntimeError("path explosion")
+        while i < len(stmts):
+            st = stmts[i]
+            tag = st[0]
+            if tag == "ret":
+                out.append((lits, eff, sub(st[1], e)))
+                return
+            if tag == "raise":
+                out.append((lits, eff, ("raise", sub(st[1], e))))
+                return
+            if tag == "assert":
+                c = sub(st[1], e)
+                if c == K_FALSE:
+                    out.append((lits, eff, ("raise", ("g", "AssertionError"))))
+                    return
+                if c != K_TRUE:
+                    out.append((lits + (mk_not(c),), eff, ("raise", ("g", "AssertionError"))))
+                    lits = lits + (c,)
+            elif tag == "set" and len(st) == 3 and st[1][0] == "v" and not keep_sets:
+                e = dict(e)
+                e[st[1]] = sub(st[2], e)
+            elif tag == "if":
+                c = sub(st[1], e)
+                rest = stmts[i + 1:]
+                if c == K_TRUE:
+                    walk(st[2] + rest, 0, lits, e, eff)
+                elif c == K_FALSE:
+                    walk(st[3] + rest, 0, lits, e, eff)
+                else:
+                    walk(assume(tuple(st[2]) + tuple(rest), c, True), 0, lits + (c,), {k: assume(v, c, True) for k, v in e.items()}, eff)
+                    walk(assume(tuple(st[3]) + tuple(rest), c, False), 0, lits + (mk_not(c),), {k: assume(v, c, False) for k, v in e.items()}, eff)
+                return
+            else:
+                eff = eff + (_subst_stmt(st, e) if e else st,)
+                if tag in ("for", "while", "mset", "aug"):
+                    e = dict(e)
+                    for t in _assigned_in(st):
+                        e.pop(t, None)
+            i += 1
+        out.append((lits, eff, fall))
+
+    walk(block, 0, (), dict(env or {}), ())
+    return out
+
+
 # ------------------------------------------------------------------ the value of a guard chain as one expression
 _BOOLISH = ("lt0", "not", "and", "or", "eq0", "ne0", "cmp")
 
